@@ -15,6 +15,36 @@ INC = os.path.join(LIB, 'include')
 SRC = os.path.join(LIB, 'src')
 COQ = os.path.join(VERIF, 'coq')
 BIN = os.path.join(VERIF, 'bin')
+ORGEN = os.path.join(VERIF, 'oracle')       # where extraction output (gen_<fam>/) is written
+# A run against a scratch copy of the repository (VERIF_REPO=..., used to try breaking changes) must not
+# rewrite coq/gen, the .vo files or the oracles the registered commands (and concurrent runs) use: it gets
+# its own copy of the Coq development and oracle binaries under .work/alt/<hash of the repo path>.
+ALT = None
+if os.path.realpath(REPO) != '/repo':
+    ALT = os.path.join(VERIF, '.work', 'alt', hashlib.sha256(os.path.realpath(REPO).encode()).hexdigest()[:10])
+    _main_coq, _main_bin = COQ, BIN
+    COQ, BIN, ORGEN = os.path.join(ALT, 'coq'), os.path.join(ALT, 'bin'), os.path.join(ALT, 'oracle')
+
+
+def alt_sync():
+    """(Re)populate the private copy: sources always follow /verif/coq, compiled files are copied with their
+    mtimes so that only what depends on regenerated definitions is rebuilt."""
+    if not ALT:
+        return
+    os.makedirs(ALT, exist_ok=True)
+    olds = sorted(glob.glob(os.path.join(os.path.dirname(ALT), '*')), key=os.path.getmtime)
+    for d in olds[:-6]:
+        if d != ALT:
+            shutil.rmtree(d, ignore_errors=True)
+    with Lock('alt.' + os.path.basename(ALT)):
+        os.makedirs(ORGEN, exist_ok=True)
+        subprocess.run(['rsync', '-a', '--exclude', 'gen/Gen_*', '--exclude', 'Makefile*', '--exclude', '_CoqProject',
+                        '--exclude', '.Makefile.d', '--exclude', '*.ml', '--exclude', '*.mli',
+                        _main_coq + '/', COQ + '/'], check=True)
+        if not os.path.exists(os.path.join(COQ, 'gen')) or not glob.glob(os.path.join(COQ, 'gen', '*.v')):
+            subprocess.run(['rsync', '-a', os.path.join(_main_coq, 'gen') + '/', os.path.join(COQ, 'gen') + '/'], check=True)
+        if not os.path.exists(BIN):
+            subprocess.run(['rsync', '-a', _main_bin + '/', BIN + '/'], check=True)
 CACHE = os.path.join(VERIF, '.cache')
 NPROC = os.cpu_count() or 4
 GUARD = 'CLIPPER2_VERIF'
@@ -206,7 +236,7 @@ def coq_makefile():
 
 def coq_make(targets, timeout=1500, keep_going=True):
     """Full .vo build (never -vos) of the given targets (paths relative to coq/)."""
-    with Lock('coq'):
+    with Lock('coq' + (os.path.basename(ALT) if ALT else '')):
         coq_makefile()
         cmd = ['make', '-j%d' % NPROC, 'COQC=' + os.path.join(VERIF, 'tools', 'coqc_t')] + (['-k'] if keep_going else []) + list(targets)
         p = sh(cmd, cwd=COQ, timeout=timeout)
@@ -237,7 +267,8 @@ def regen_all(log=None):
     if cdir not in sys.path:
         sys.path.insert(0, cdir)
     fails = []
-    with Lock('regen'):
+    alt_sync()
+    with Lock('regen' + (os.path.basename(ALT) if ALT else '')):
         try:
             import cpp2v as _c
             ok, fl = _c.regenerate(repo=REPO, out=os.path.join(COQ, 'gen'))
@@ -246,7 +277,7 @@ def regen_all(log=None):
             fails.append('cpp2v crashed: %s' % str(e)[-800:])
         try:
             import export_table as _e
-            _e.regenerate(INC)
+            _e.regenerate(INC, out_v=os.path.join(COQ, 'gen', 'Gen_export.v'))
         except Exception as e:
             fails.append('export_table: %s' % str(e)[-800:])
         try:
@@ -276,7 +307,7 @@ def coq_props(ctx, pid):
         res['ok'] = False
         res['failed'].append('forbidden constructs: ' + '; '.join(bad[:5]))
     if ok:
-        with Lock('coq'):
+        with Lock('coq' + (os.path.basename(ALT) if ALT else '')):
             p = sh(['coqc', '-Q', '.', 'Clip', '-w', '-notation-overridden', rel], cwd=COQ, timeout=900)
         if p.returncode != 0:
             res['ok'] = False
@@ -343,13 +374,13 @@ def oracle_build(fam, force=False):
     stamp = out + '.key'
     if not force and os.path.exists(out) and os.path.exists(stamp) and read(stamp) == key:
         return out
-    with Lock('oracle.' + fam):
+    with Lock('oracle.' + fam + (os.path.basename(ALT) if ALT else '')):
         if not force and os.path.exists(out) and os.path.exists(stamp) and read(stamp) == key:
             return out
         ok, log = coq_make(['extract/Extract_%s.vo' % fam])
         if not ok:
             raise Infra('extraction build failed for %s:\n%s' % (fam, log[-3000:]))
-        gen = os.path.join(VERIF, 'oracle', 'gen_' + fam)
+        gen = os.path.join(ORGEN, 'gen_' + fam)
         shutil.rmtree(gen, ignore_errors=True)
         os.makedirs(gen)
         # re-run the extraction file with cwd=gen so that the .ml/.mli land there
@@ -514,14 +545,16 @@ class Ctx:
         ev = dict(property_id=self.pid, tier=self.tier, seed=self.seed, level=self.level,
                   coverage=cov, assumptions=self.assumptions, wall_s=round(wall, 2),
                   violations=len(self.violations))
-        os.makedirs(os.path.join(VERIF, 'evidence'), exist_ok=True)
-        with open(os.path.join(VERIF, 'evidence', self.pid + '.json'), 'w') as f:
+        # runs against a scratch copy of the repository never overwrite the evidence/replays of /repo itself
+        outroot = ALT or VERIF
+        os.makedirs(os.path.join(outroot, 'evidence'), exist_ok=True)
+        with open(os.path.join(outroot, 'evidence', self.pid + '.json'), 'w') as f:
             json.dump(ev, f, indent=1, sort_keys=True, default=str)
             f.write('\n')
         if not self.violations:
             self.log('OK  (%.1fs)' % wall)
             return 0
-        rdir = os.path.join(VERIF, 'replays', self.pid)
+        rdir = os.path.join(outroot, 'replays', self.pid)
         os.makedirs(rdir, exist_ok=True)
         # one VIOLATION line per distinct key
         seen = set()
